@@ -4,7 +4,7 @@
 p=$1; pre=${2:-}; wt=/tmp/wt${pre}-$p; out=/tmp/seed${pre}-$p
 cd $wt || exit 2
 git checkout -q -- . ; git clean -fdq -e tests/data >/dev/null 2>&1
-for k in 1 2 3; do
+for k in 1 2 3; do [ -d $out/$k ] || continue
   d=$out/$k; [ -f $d/patch.diff ] || { echo "$p/$k: no patch"; continue; }
   r0=$(cd $wt && PYTHONPATH=$wt timeout 300 /venv/bin/python $d/demo.py >/dev/null 2>&1; echo $?)
   if ! git apply --check $d/patch.diff 2>/dev/null; then echo "$p/$k: patch does not apply"; continue; fi
